@@ -125,13 +125,15 @@ func acceptsGzip(r *http.Request) bool {
 			return false
 		}
 	}
-	// gzip must be listed and must not be refused with a zero weight ("gzip;q=0")
+	// gzip must be listed and must not be refused with a zero weight ("gzip;q=0");
+	// coding names and the weight parameter are case-insensitive
 	for _, coding := range strings.Split(r.Header.Get(headerAcceptEncoding), ",") {
 		name, params, _ := strings.Cut(coding, ";")
-		if !strings.Contains(name, encodingGzip) {
+		name = strings.ToLower(strings.TrimSpace(name))
+		if name != encodingGzip && name != "x-"+encodingGzip {
 			continue
 		}
-		if q, ok := strings.CutPrefix(strings.TrimSpace(params), "q="); ok && strings.Trim(q, "0.") == "" && q != "" {
+		if q, ok := strings.CutPrefix(strings.ToLower(strings.TrimSpace(params)), "q="); ok && strings.Trim(q, "0.") == "" && q != "" {
 			continue
 		}
 		return true
